@@ -159,11 +159,13 @@ def base_axioms():
                       [mhas(mdel(m, k), k2)])))
     A(("mdel_at", _q([m, k, k2], z3.Implies(k2 != k, mat(mdel(m, k), k2) == mat(m, k2)),
                      [mat(mdel(m, k), k2)])))
-    A(("mput_obj", _q([m, k, x], is_VObj(mput(m, k, x)), [mput(m, k, x)])))
+    A(("mput_obj", _q([m, k, x], z3.And(is_VObj(mput(m, k, x)), tag(mput(m, k, x)) == tag(m)), [mput(m, k, x)])))
+    A(("mdel_obj", _q([m, k], z3.And(is_VObj(mdel(m, k)), tag(mdel(m, k)) == tag(m)), [mdel(m, k)])))
+    A(("mempty_tag", z3.And(is_VObj(mempty), tag(mempty) == TAG["dict"])))
     A(("mupdate_has", _q([m, p, k], mhas(mupdate(m, p), k) == z3.Or(mhas(m, k), mhas(p, k)), [mhas(mupdate(m, p), k)])))
     A(("mupdate_at", _q([m, p, k], mat(mupdate(m, p), k) == z3.If(mhas(p, k), mat(p, k), mat(m, k)),
                         [mat(mupdate(m, p), k)])))
-    A(("mupdate_obj", _q([m, p], is_VObj(mupdate(m, p)), [mupdate(m, p)])))
+    A(("mupdate_obj", _q([m, p], z3.And(is_VObj(mupdate(m, p)), tag(mupdate(m, p)) == tag(m)), [mupdate(m, p)])))
     A(("mupdate_empty", _q([m], mupdate(m, mempty) == m, [mupdate(m, mempty)])))
     # membership
     A(("sin_empty", _q([x], z3.Not(sin(sempty, x)), [sin(sempty, x)])))
@@ -190,6 +192,9 @@ def base_axioms():
     j = z3.Const("j!", Int)
     A(("sdistinct_def", _q([p, i, j], z3.Implies(z3.And(sdistinct(p), 0 <= i, i < j, j < slen(p)),
                                                   sget(p, i) != sget(p, j)), [z3.MultiPattern(sdistinct(p), sget(p, i), sget(p, j))])))
+    dw1, dw2 = Fn("sdist_w1", V, Int), Fn("sdist_w2", V, Int)
+    A(("sdistinct_intro", _q([p], z3.Or(sdistinct(p), z3.And(0 <= dw1(p), dw1(p) < dw2(p), dw2(p) < slen(p),
+                                                              sget(p, dw1(p)) == sget(p, dw2(p)))), [sdistinct(p)])))
     A(("zipdict_has", _q([p, q, k], mhas(zipdict(p, q), k) == z3.And(sin(p, k), sidx(p, k) < slen(q)),
                          [mhas(zipdict(p, q), k)])))
     A(("zipdict_at", _q([p, q, i], z3.Implies(z3.And(sdistinct(p), 0 <= i, i < slen(p), i < slen(q)),
